@@ -187,16 +187,12 @@ fn exec_c<C: Suite>(scen: &Scenario) -> Exec {
             "tweak": tweak,
         });
         if mode == SignMode::Plain && !C::IS_TR {
-            if let Ok(bfl) = frost::compute_binding_factor_list(package, pk.verifying_key(), &[]) {
+            if let Some((bfs_raw, gc)) = crate::diag::binding::<C>(package, pk.verifying_key()) {
                 let mut bfs = serde_json::Map::new();
-                for id in shares.keys() {
-                    if let Some(bf) = bfl.get(id) {
-                        bfs.insert(hexs(&id.serialize()), json!(hexs(&bf.serialize())));
-                    }
+                for (id, bf) in &bfs_raw {
+                    bfs.insert(hexs(&id.serialize()), json!(hexs(bf)));
                 }
-                if let Ok(gc) = frost::compute_group_commitment(package, &bfl) {
-                    line["diag"] = json!({"binding_factors": bfs, "group_commitment": hexs(&el_bytes::<C>(&gc.to_element()).unwrap_or_default())});
-                }
+                line["diag"] = json!({"binding_factors": bfs, "group_commitment": hexs(&gc)});
             }
         }
         rep.trace.push(line.to_string());
